@@ -4,11 +4,16 @@ From Coq Require Import QArith Lqa Lia Bool.
 From SE Require Import Base.Num Base.Res Base.NumProofs Geom.Geometry Geom.Ops Gen.Prelude Gen.Source Gen.Tactics.
 Open Scope Q_scope.
 
+(* all four lemmas are proved on the fully unfolded source (so they do not depend on how the source is
+   split into helper functions) by case analysis on the options, the bounds and every comparison *)
+Ltac ops_crush :=
+  unfold Ops.intervals_overlap, is_some, is_none, pymax, pymin; cbn [andb negb bind];
+  q_crush.
+
 Lemma src_intervals_overlap s1 e1 s2 e2 a r :
   Source.intervals_overlap (s1, e1) (s2, e2) a r = Ops.intervals_overlap s1 e1 s2 e2 a r.
 Proof.
-  unfold Source.intervals_overlap, Ops.intervals_overlap, is_some, is_none, pymax, pymin.
-  destruct a, r; cbn [andb negb]; q_crush.
+  autounfold with src. destruct a, r; ops_crush.
 Qed.
 
 Lemma py_bounds_with {A} g (f : bounds -> res A) :
@@ -21,25 +26,27 @@ Qed.
 Lemma src_have_temporal_overlap g1 g2 a r :
   Source.have_temporal_overlap g1 g2 a r = Ops.have_temporal_overlap g1 g2 a r.
 Proof.
-  unfold Source.have_temporal_overlap, Ops.have_temporal_overlap.
-  rewrite py_bounds_with. destruct (py_compute_bounds g1) as [[[[s1 l1] e1] h1]|]; [|reflexivity]. cbn [bind].
-  rewrite py_bounds_with. destruct (py_compute_bounds g2) as [[[[s2 l2] e2] h2]|]; [|reflexivity]. cbn [bind].
-  unfold b_start, b_end; cbn [fst snd]. apply src_intervals_overlap.
+  autounfold with src. unfold Ops.have_temporal_overlap. rewrite !py_bounds_with.
+  destruct (py_compute_bounds g1) as [[[[s1 l1] e1] h1]|]; [|reflexivity]. cbn [bind].
+  rewrite py_bounds_with.
+  destruct (py_compute_bounds g2) as [[[[s2 l2] e2] h2]|]; [|reflexivity]. cbn [bind].
+  unfold b_start, b_end; cbn [fst snd]. destruct a, r; ops_crush.
 Qed.
 
 Lemma src_have_frequency_overlap g1 g2 a r :
   Source.have_frequency_overlap g1 g2 a r = Ops.have_frequency_overlap g1 g2 a r.
 Proof.
-  unfold Source.have_frequency_overlap, Ops.have_frequency_overlap.
-  rewrite py_bounds_with. destruct (py_compute_bounds g1) as [[[[s1 l1] e1] h1]|]; [|reflexivity]. cbn [bind].
-  rewrite py_bounds_with. destruct (py_compute_bounds g2) as [[[[s2 l2] e2] h2]|]; [|reflexivity]. cbn [bind].
-  unfold b_low, b_high; cbn [fst snd]. apply src_intervals_overlap.
+  autounfold with src. unfold Ops.have_frequency_overlap. rewrite !py_bounds_with.
+  destruct (py_compute_bounds g1) as [[[[s1 l1] e1] h1]|]; [|reflexivity]. cbn [bind].
+  rewrite py_bounds_with.
+  destruct (py_compute_bounds g2) as [[[[s2 l2] e2] h2]|]; [|reflexivity]. cbn [bind].
+  unfold b_low, b_high; cbn [fst snd]. destruct a, r; ops_crush.
 Qed.
 
 Lemma src_is_in_clip g cs ce m :
   Source.is_in_clip g cs ce m = Ops.is_in_clip g cs ce m.
 Proof.
-  unfold Source.is_in_clip, Ops.is_in_clip.
+  autounfold with src. unfold Ops.is_in_clip.
   destruct (qltb m 0) eqn:Hm; [reflexivity|].
   rewrite py_bounds_with. destruct (py_compute_bounds g) as [[[[s l] e] h]|]; [|reflexivity]. cbn [bind].
   unfold is_in_clip_b, b_start, b_end; cbn [fst snd]. rewrite Hm. q_crush.
